@@ -31,6 +31,8 @@ def replay(f):
     def post(before, after, op):
         if op["goal"] == op["pattern"] and ast.dump(ast.parse(before["main.py"])) != ast.dump(ast.parse(after["main.py"])):
             return "identity_changes_tree", "goal == pattern changed the syntax tree"
+        if op["goal"] != op["pattern"]:
+            return c19_oracle.unreplaced(before["main.py"], after["main.py"], op["pattern"], op["goal"])
         return "ok", ""
 
     r = replay_with(f, post=post, check_imports=False)
